@@ -383,7 +383,7 @@ int main(int argc, char** argv) {
 	FILE* rawout = fopen((std::string(argv[2]) + ".raw").c_str(), "w");
 	int timeoutS = argc > 3 ? atoi(argv[3]) : 10;
 	if (!in || !out || !rawout) { perror("open"); return 2; }
-	setenv("USCXML_NOCACHE_FILES", "YES", 1);
+	if (!getenv("VERIF_KEEP_CACHE")) setenv("USCXML_NOCACHE_FILES", "YES", 1);
 
 	// make sure plugins are registered once, in the parent (no threads are started by this)
 	Factory::getInstance();
